@@ -1,6 +1,11 @@
 #!/bin/bash
 # Build the harness (sources in /verif/harness) INTO the /repo module with the verif tag on.
 # Always compiles /repo's current working tree. Output: /verif/bin/harness
+#
+# All family drivers live in one `package main`. If the tree under test no longer compiles against ONE
+# family's driver or overlay file (a refactoring renamed something that driver refers to), that family is
+# left out and the build is retried, so that the other families' checks can still answer; the families left
+# out are listed in <binary>.excluded (their checks then exit 2 = cannot answer, never a verdict).
 set -euo pipefail
 export GOFLAGS=-mod=mod GOPROXY=off GOSUMDB=off GOTOOLCHAIN=local
 VERIF=${VERIF:-/verif}
@@ -9,21 +14,51 @@ mkdir -p "$VERIF/bin"
 TAGN=$(echo -n "$REPO" | md5sum | cut -c1-8)
 OUT="$VERIF/bin/harness"; [ "$REPO" = "/repo" ] || OUT="$VERIF/bin/harness-$TAGN"
 OV="$VERIF/bin/overlay-$TAGN.json"
-python3 - "$VERIF" "$REPO" > "$OV" <<'PY'
-import json,os,sys
-verif,repo=sys.argv[1],sys.argv[2]
-rep={}
-for f in sorted(os.listdir(os.path.join(verif,'harness'))):
-    if f.endswith('.go'):
-        rep[os.path.join(repo,'verifharness',f)]=os.path.join(verif,'harness',f)
-# extra overlays (hook implementations living in /verif): harness/overlay/<path relative to repo>
-base=os.path.join(verif,'harness','overlay')
-for root,_,files in os.walk(base):
-    for f in files:
-        p=os.path.join(root,f)
-        rep[os.path.join(repo,os.path.relpath(p,base))]=p
-print(json.dumps({"Replace":rep},indent=1))
+python3 - "$VERIF" "$REPO" "$OV" "$OUT" <<'PY'
+import json,os,re,subprocess,sys
+verif,repo,ov,out=sys.argv[1:5]
+FAMS=["oracleadm","oracle","nstfeed","atomic","ledger","liveness","epochs","auth","fees","chain","staking","votingpower","evmtx","avs"]
+OVERLAY_FAM={"verif_dump_adm.go":"oracleadm","verif_dump.go":"oracle","verif_nstfeed.go":"nstfeed"}
+def family_of(path):
+    b=os.path.basename(path)
+    if b in OVERLAY_FAM: return OVERLAY_FAM[b]
+    for f in FAMS:                       # longest names first: oracleadm before oracle
+        if b.startswith(f): return f
+    return None
+def files(excluded):
+    rep={}
+    for f in sorted(os.listdir(os.path.join(verif,'harness'))):
+        if f.endswith('.go') and family_of(f) not in excluded:
+            rep[os.path.join(repo,'verifharness',f)]=os.path.join(verif,'harness',f)
+    base=os.path.join(verif,'harness','overlay')       # hook implementations living in /verif
+    for root,_,fs in os.walk(base):
+        for f in fs:
+            p=os.path.join(root,f)
+            if family_of(p) not in excluded:
+                rep[os.path.join(repo,os.path.relpath(p,base))]=p
+    return rep
+excluded=set()
+for attempt in range(8):
+    rep=files(excluded)
+    json.dump({"Replace":rep},open(ov,"w"),indent=1)
+    p=subprocess.run(["go","build","-tags","verif","-overlay",ov,"-o",out,"./verifharness/"],cwd=repo,stdout=subprocess.PIPE,stderr=subprocess.STDOUT,text=True)
+    if p.returncode==0:
+        break
+    # which of OUR files do the errors name? (errors in exocore's own files = the tree does not compile: fatal)
+    ours={os.path.relpath(k,repo):v for k,v in rep.items()}
+    bad=set()
+    for m in re.finditer(r'^(?:\./)?([^\s:]+\.go):\d+', p.stdout, re.M):
+        f=m.group(1)
+        cand=[k for k in ours if k==f or k.endswith('/'+f) or f.endswith(k)]
+        for k in cand:
+            fam=family_of(ours[k])
+            if fam: bad.add(fam)
+    if not bad:
+        sys.stderr.write(p.stdout); sys.exit(1)
+    sys.stderr.write("build: leaving out families that do not compile against this tree: %s\n%s\n" % (sorted(bad), p.stdout[-1500:]))
+    excluded|=bad
+else:
+    sys.exit(1)
+open(out+".excluded","w").write("\n".join(sorted(excluded)))
 PY
-cd "$REPO"
-go build -tags verif -overlay "$OV" -o "$OUT" ./verifharness/
 echo "$OUT"
